@@ -149,8 +149,21 @@ func checkC13(c C13Case, rec *obs.Recorder) *obs.Violation {
 	// deliver gives a round's content to an authorizer, through Add* calls or through LoadPolicies
 	// of a snapshot taken from a third, throw-away authorizer; returns the authorizer's own
 	// unevaluated snapshot, independently decoded (what it would hand to another service)
-	deliver := func(a biscuit.Authorizer, r C13Round) (string, error) {
-		if r.Via == "load" {
+	// a service that keeps its parsed authorizer around hands the same Go value to AddAuthorizer for
+	// every request with that content; the fresh authorizer of the comparison gets a value of its own
+	parsedMemo := map[string]*biscuit.ParsedAuthorizer{}
+	deliver := func(a biscuit.Authorizer, r C13Round, longLived bool) (string, error) {
+		if r.Via == "parsed" {
+			pa := bridge.ToParsedAuthorizer(r.Authz)
+			if longLived {
+				if p, ok := parsedMemo[r.Authz.Key()]; ok {
+					pa = *p
+				} else {
+					parsedMemo[r.Authz.Key()] = &pa
+				}
+			}
+			a.AddAuthorizer(pa)
+		} else if r.Via == "load" {
 			src, err := newAuthz(b, pub, r.Authz)
 			if err != nil {
 				return "", err
@@ -172,7 +185,7 @@ func checkC13(c C13Case, rec *obs.Recorder) *obs.Violation {
 		return wire.SnapshotKey(data)
 	}
 	for i, r := range c.Rounds {
-		snapGot, errGot := deliver(reused, r)
+		snapGot, errGot := deliver(reused, r, true)
 		got := act(reused, r, func(q m.Rule) string { return queryKey(reused, q) })
 		reused.Reset()
 
@@ -180,7 +193,7 @@ func checkC13(c C13Case, rec *obs.Recorder) *obs.Violation {
 		if err != nil {
 			return obs.Violf("fresh authorizer: %v", err)
 		}
-		snapWant, errWant := deliver(fresh, r)
+		snapWant, errWant := deliver(fresh, r, false)
 		if errWant != nil {
 			return obs.Violf("token %s; round %d {%s} via %q: a fresh authorizer cannot take the content: %v", c.Token.Text(), i+1, r.Authz.Text(), r.Via, errWant)
 		}
@@ -234,9 +247,12 @@ func drawC13(t *rapid.T) C13Case {
 	cur := sc.Authz
 	for i := 0; i < n; i++ {
 		if i > 0 {
-			switch rapid.IntRange(0, 3).Draw(t, "relate") {
+			switch rapid.IntRange(0, 4).Draw(t, "relate") {
 			case 0:
 				cur = sc.Schema.DrawAuthz(t, sc.Token, cfg) // unrelated content
+			case 4:
+				// the content of an earlier round again (a recurring request)
+				cur = c.Rounds[rapid.IntRange(0, i-1).Draw(t, "again")].Authz
 			default:
 				// the previous round with one request fact changed or dropped
 				next := m.Authz{Rules: cur.Rules, Checks: cur.Checks, Policies: cur.Policies}
@@ -262,8 +278,11 @@ func drawC13(t *rapid.T) C13Case {
 			}
 		}
 		r := C13Round{Authz: cur, Action: rapid.SampledFrom([]string{"authorize", "authorize", "both", "query"}).Draw(t, "action")}
-		if rapid.IntRange(0, 2).Draw(t, "via") == 2 {
+		switch rapid.IntRange(0, 4).Draw(t, "via") {
+		case 2:
 			r.Via = "load"
+		case 3, 4:
+			r.Via = "parsed"
 		}
 		closure := gen.AuthClosure(sc.Token, cur)
 		for k := 0; k < 2; k++ {
@@ -277,7 +296,7 @@ func drawC13(t *rapid.T) C13Case {
 func TestC13(t *testing.T) {
 	rec := obs.New("C13")
 	defer rec.Flush(true)
-	rec.SetExtra("rule", "rapid histories on one authorizer: 2-6 rounds of (add facts / rules / checks / policies, then Authorize and/or a query panel, then Reset); the content of a round is the previous round with one request fact changed or dropped (and sometimes a check or policy dropped), or unrelated content. A third of the rounds deliver their content through LoadPolicies of a snapshot taken from a throw-away authorizer instead of Add* calls; one history in forty starts with a round that is cut short by a 15 ms limit (4-way cross product over 16-22 facts), followed by Reset and a wait for the abandoned evaluation to end. Oracle: the independently decoded unevaluated snapshot (SerializePolicies), the outcome class and the panel answers of every round equal those of a fresh authorizer for the same token given only that round's content. Non-trivial = a history with a round whose result would differ if the previous round's content were still present (decided by running a fresh authorizer on the union); distinct by (token, history).")
+	rec.SetExtra("rule", "rapid histories on one authorizer: 2-6 rounds of (add facts / rules / checks / policies, then Authorize and/or a query panel, then Reset); the content of a round is the previous round with one request fact changed or dropped (and sometimes a check or policy dropped), unrelated content, or the content of an earlier round again. A fifth of the rounds deliver their content through LoadPolicies of a snapshot taken from a throw-away authorizer, two fifths through AddAuthorizer with a ParsedAuthorizer value that the long-lived authorizer receives again whenever the content recurs (the fresh authorizer of the comparison gets a value of its own), the rest through Add* calls; one history in forty starts with a round that is cut short by a 15 ms limit (4-way cross product over 16-22 facts), followed by Reset and a wait for the abandoned evaluation to end. Oracle: the independently decoded unevaluated snapshot (SerializePolicies), the outcome class and the panel answers of every round equal those of a fresh authorizer for the same token given only that round's content. Non-trivial = a history with a round whose result would differ if the previous round's content were still present (decided by running a fresh authorizer on the union); distinct by (token, history).")
 	rec.SetExtra("assumptions", []string{"comparison is between two executions of the library; correctness of each verdict is C04's subject"})
 	harness.RunWith(t, harness.Spec[C13Case]{ID: "C13", Draw: drawC13, Check: checkC13}, rec)
 }
